@@ -151,7 +151,7 @@ def check(rep, an, tier):
                   "prefix": strv("prefix", "micro"), "axis": const(axis), in_kw: strv(in_kw, "I" if fname == "irr2flux" else "E")}
             res = an.run(f"{CONV}:{fname}", kws=kw, spec=hooks(), config=f"axis={axis}")
             aa = res.events("apply_along_axis")
-            rec = [ev for ev in res.events("call") if ev.d["callee"].name == fname and len(ev.path) == 1]
+            rec = [ev for ev in res.events("call") if ev.d["callee"].name == fname and R.near(ev)]
             if aa:
                 for ev in aa:
                     fnv = ev.d["fn"]
@@ -259,7 +259,7 @@ def formula(rep, res, entry, want_deg, out_unit, table, dim_I, dim_E, fname, ru,
         if t[1] is not None:
             rep.check("R-FLOW", "the requested prefix scales the target unit", t[1], where=t[2].loc, construct=t[2].text()[:70], entry=entry,
                       config=res.config)
-    nm = [ev for ev in res.events("call") if ev.d["callee"].name == "optional_to" and len(ev.path) == 1 and len(ev.d["args"]) > 1
+    nm = [ev for ev in res.events("call") if ev.d["callee"].name == "optional_to" and R.near(ev) and len(ev.d["args"]) > 1
           and ev.d["args"][1].known and ev.d["args"][1].const == "nm" and "wavelengths" in ev.d["args"][0].flat().data]
     rep.check("R-QTY", "wavelengths are converted to nm", bool(nm), where=where, construct="optional_to(wavelengths, 'nm')", entry=entry,
               config=res.config)
